@@ -6,7 +6,7 @@ set -uo pipefail
 S=${1:?scratch dir}
 WITHTESTS=${2:-}
 export GOFLAGS=-mod=mod GOPROXY=off GOSUMDB=off GOTOOLCHAIN=local
-V=/verif
+V=$(cd "$(dirname "$(readlink -f "$0")")/.." && pwd)
 REPO=${VERIF_REPO:-/repo}
 MODCACHE=$(go env GOMODCACHE)
 fail() { echo "mkscratch: $*" >&2; exit 2; }
